@@ -74,6 +74,15 @@ def codecs(facts, res):
                         k += 1
                         txt = facts.ntext(b)
                         lhs, rhs = [strip(c) for c in kids(b)]
+
+                        def through_const(e):
+                            # the middle code hoisted into a const local
+                            if e.get("k") == "DeclRefExpr":
+                                dv = [v for v in walk(tbf.body(fn)) if v.get("k") == "VarDecl" and v.get("did") == e.get("did") and kids(v) and "const" in (v.get("t") or "")]
+                                if len(dv) == 1:
+                                    return strip(kids(dv[0])[0])
+                            return e
+                        lhs, rhs = (through_const(lhs), rhs) if b.get("op") == "<" else (lhs, through_const(rhs))
                         ok = b.get("op") == "<" and re.match(r"^(TbfUtils::)?lipow\(3,Dim\)/2$", facts.ntext(lhs)) is not None and rhs.get("k") == "DeclRefExpr"
                         ok = ok or (b.get("op") == ">" and re.match(r"^(TbfUtils::)?lipow\(3,Dim\)/2$", facts.ntext(rhs)) is not None)
                         res.instance(R2, "%s::%s" % (cls, fn["name"]), facts.loc(b), txt)
@@ -262,8 +271,23 @@ def sibling_builders(facts, res):
             if one_sided:
                 raise AnalysisBroken("%s: %s calls the helper %s(), which %s does not: part of one builder was moved into it; the per-cell / per-group comparison cannot follow - re-confirm by reading"
                                      % (cls, x if one_sided[0] in ha else y, one_sided[0], y if one_sided[0] in ha else x))
-            A = sibling.atoms(facts, fa, only=SHARED)
-            B = sibling.atoms(facts, fb, only=SHARED)
+            # one-expression helpers of the class that only one of the two builders calls are inlined on that side
+            def one_expr_called(f_):
+                out = {}
+                for c_ in walk(tbf.body(f_)):
+                    if c_.get("k") in ("CallExpr", "CXXMemberCallExpr"):
+                        nm_ = tbf.callee_name(c_)
+                        b_ = tbf.call_base(c_)
+                        if nm_ in own and (b_ is None or strip(b_).get("k") == "CXXThisExpr"):
+                            sts = [t_ for t_ in kids(tbf.body(own[nm_]))]
+                            if len(sts) == 1 and sts[0].get("k") == "ReturnStmt" and kids(sts[0]):
+                                out[nm_] = own[nm_]
+                return out
+            oa, ob = one_expr_called(fa), one_expr_called(fb)
+            keep = {"getBoxPosFromIndex", "getIndexFromBoxPos", "getParentIndex", "getChildIndexFromParent", "getRelativePosFromInteractionIndex", "getRelativePosFromNeighborIndex"}
+            inl = {k_: v_ for k_, v_ in list(oa.items()) + list(ob.items()) if (k_ in oa) != (k_ in ob) and k_ not in keep}
+            A = sibling.atoms(facts, fa, only=SHARED, inline=inl)
+            B = sibling.atoms(facts, fb, only=SHARED, inline=inl)
             # the per-group builder wraps the per-cell logic in a loop over the group's cells: compare the atom *texts*
             # after replacing the cell under consideration by a common token
             def norm(d, per_block):
@@ -296,6 +320,9 @@ def sibling_builders(facts, res):
                     B2 = {_rename_locals(k, ren2): v for k, v in B2.items()}
                     B3 = set(k for k in B2 if k.split(" ")[0] in kinds)
             res.instance(R + ".cell-vs-group", "%s::%s vs %s" % (cls, x, y), facts.loc(fb), "%d / %d shared-geometry atoms" % (len(A3), len(B3)))
+            opaque = [k for k in sorted(A3 ^ B3) if re.search(r"\?[A-Z]\w+", k)]
+            if opaque:
+                raise AnalysisBroken("%s: %s and %s differ in a step whose expression the comparison cannot read (`%s`): one of them was restructured; re-confirm the per-cell / per-group rule by reading" % (cls, x, y, opaque[0][:100]))
             for k in sorted(A3 - B3):
                 res.violation(R + ".cell-vs-group", tbf.rel(facts.path_of(fb)), fb["qname"], ("missing:" + k)[:110], fb["l"][1],
                               "the per-cell builder %s has `%s` but the per-group builder does not: the two would list different cells" % (x, k[:160]))
